@@ -117,7 +117,7 @@ pub fn check_field(n: usize) -> Vec<Violation> {
 }
 
 pub fn run(ctx: &Ctx) {
-    ctx.set_rule("(a) every n in 0..2^28 through the guarded pass-through to the private encoder, in the self-inclusive form (for n + width < 2^28) and the exclusive form, decoded by the specification rule; inclusive must decode to n + width, use the lead-byte format and be the shortest encoding that can include itself; exclusive must decode to n. (b) real length-prefixed objects of every kind with filler bodies around every width boundary (added by the AML module). (c) named/reserved field widths through the public Field constructor. Non-trivial = n within +-8 of a width boundary or with >= 2 non-zero follow-byte groups; all n are distinct by enumeration.");
+    ctx.set_rule("(a) every n in 0..2^28 through the guarded pass-through to the private encoder, in the self-inclusive form (for n + width < 2^28) and the exclusive form, decoded by the specification rule; inclusive must decode to n + width, use the lead-byte format and be the shortest encoding that can include itself; exclusive must decode to n. (b) real length-prefixed objects of every kind with filler bodies around every width boundary (added by the AML module). (c) named/reserved field widths through the public Field constructor. Non-trivial = n within +-8 of a width boundary or with >= 2 non-zero follow-byte groups; all n are distinct by enumeration. (c) the package builder used as a sink, serialised before it is complete, extended after a serialisation, and after an element that panicked half-way: its PkgLength must decode to the bytes that follow.");
     ctx.assume("hook: cfg(rust_vmm_acpi_tables_verif) exposes create_pkg_length unchanged (verif_create_pkg_length)");
     ctx.assume("lengths n with n + 4 >= 2^28 are not representable in the inclusive form; their refusal is C18's subject");
     const LIMIT: usize = 1 << 28;
